@@ -319,6 +319,96 @@ func main() {
 			t.Outcome("ok")
 		})
 
+		// Transfers larger than any pooled buffer class, at every residue of the stream offset:
+		// a masking stream may treat big writes/reads differently from small ones (piece-wise
+		// through a fixed scratch buffer) and must still continue the key where the stream is.
+		r.Part("E3b-large-transfers-at-every-offset", func(t *explore.T) {
+			key := keys[4]
+			bigs := []int{4096, 4097, 65535, 65536, 65537, 70001, 131072, 200003}
+			t.Par(8*len(bigs), func(i int) {
+				prior, big := i%8, bigs[i/8]
+				total := prior + big + 5
+				orig := fill(total, 3)
+				want := refmodel.XOR(orig, key, 0)
+				for failAt := -1; failAt <= 3; failAt++ {
+					failAt := failAt
+					t.Do(func() string {
+						return fmt.Sprintf("CipherWriter writes=[%d %d 5] destination fails once at call %d (accepting half), caller resumes", prior, big, failAt)
+					}, func() *explore.Fail {
+						d := env.NewDst()
+						if failAt >= 0 {
+							d.FailAt, d.Partial, d.Transient = failAt, big/2, true
+						}
+						cw := wsutil.NewCipherWriter(d, key)
+						off := 0
+						for _, k := range []int{prior, big, 5} {
+							chunk := orig[off : off+k]
+							keep := append([]byte{}, chunk...)
+							for len(chunk) > 0 {
+								m, err := cw.Write(chunk)
+								if m < 0 || m > len(chunk) {
+									return explore.Failf("write-count-out-of-range", "%d", m)
+								}
+								chunk = chunk[m:]
+								if err == nil && len(chunk) > 0 {
+									return explore.Failf("short-write-no-error", "")
+								}
+							}
+							if !bytes.Equal(orig[off:off+k], keep) {
+								return explore.Failf("caller-slice-modified", "write at %d", off)
+							}
+							off += k
+						}
+						if got := d.Bytes(); !bytes.Equal(got, want) {
+							return explore.Failf("large-write-xor-mismatch", "first difference at byte %d of %d (stream offset residue %d)", firstDiff(got, want), total, prior%4)
+						}
+						return nil
+					})
+				}
+				for _, chunk := range []int{0, 4096, 65536, 65537} {
+					for _, bufsz := range []int{big, 65536, 65537, total} {
+						chunk, bufsz := chunk, bufsz
+						t.Do(func() string {
+							return fmt.Sprintf("CipherReader reads=[%d then buffers of %d] total=%d transport chunk=%d", prior, bufsz, total, chunk)
+						}, func() *explore.Fail {
+							src := env.NewSrc(append([]byte{}, orig...))
+							src.Policy = env.FixedChunk(chunk)
+							cr := wsutil.NewCipherReader(src, key)
+							var got []byte
+							if prior > 0 {
+								b := make([]byte, prior)
+								k, _ := io.ReadFull(cr, b)
+								got = append(got, b[:k]...)
+							}
+							buf := make([]byte, bufsz)
+							for {
+								k, err := cr.Read(buf)
+								got = append(got, buf[:k]...)
+								if err != nil {
+									break
+								}
+							}
+							if !bytes.Equal(got, want) {
+								return explore.Failf("large-read-xor-mismatch", "first difference at byte %d of %d", firstDiff(got, want), total)
+							}
+							return nil
+						})
+					}
+				}
+				t.Do(func() string { return fmt.Sprintf("Cipher payload=%d offset=%d", big, prior) }, func() *explore.Fail {
+					for _, off := range []int{prior, prior + 1<<31, prior + 1<<40} {
+						p := append([]byte{}, orig[:big]...)
+						ws.Cipher(p, key, off)
+						if w := refmodel.XOR(orig[:big], key, off); !bytes.Equal(p, w) {
+							return explore.Failf("large-Cipher-mismatch", "offset %d: first difference at %d", off, firstDiff(p, w))
+						}
+					}
+					return nil
+				})
+			})
+			t.Outcome("ok")
+		})
+
 		r.Part("E4-frame-helpers", func(t *explore.T) {
 			key := keys[1]
 			sizes := []int{}
@@ -440,4 +530,16 @@ func main() {
 			t.Outcome("ok")
 		})
 	})
+}
+
+func firstDiff(a, b []byte) int {
+	for i := 0; i < len(a) && i < len(b); i++ {
+		if a[i] != b[i] {
+			return i
+		}
+	}
+	if len(a) < len(b) {
+		return len(a)
+	}
+	return len(b)
 }
